@@ -139,7 +139,8 @@ def run(sc, ctx):
     rot = sub_poses(ctx['seed'])[sc['pose']]
     pos = wrap((rot @ np.array(scoord, float).T).T + np.array(PLACES[sc['place']][1]) @ cell, cell)
     by = wrap(np.array([[0.3, 0.1, 0.12], [0.6, 0.85, 0.2]]) @ cell, cell)
-    s = Atoms(elements=list(sel_) + ['Kr', 'Ar'], positions=np.vstack([pos, by]), cell=cell.copy(), charges=[0.1 * (i + 1) for i in range(len(sel_) + 2)])
+    nb = len(sel_)
+    s = Atoms(elements=list(sel_) + ['Kr', 'Ar'], positions=np.vstack([pos, by]), cell=cell.copy(), charges=[0.1 * (i + 1) for i in range(len(sel_) + 2)], bonds=[(nb, nb + 1)], bond_types=[0])
     qname, qel, qpos = SEARCH[sc['q']]
     rname, rel, rpos = replacements(qel, qpos)[sc['r']]
     sp = pattern_atoms(qel, qpos); rp = pattern_atoms(rel, rpos)
@@ -191,6 +192,12 @@ def run(sc, ctx):
             view(res[0])
         except Inconsistent as e:
             V('at-most-once', 'inconsistent', 'result inconsistent: %s' % e)
+        else:
+            els_out = [str(x) for x in res[0].elements]
+            want = [(els_out.index('Kr'), els_out.index('Ar'))] if 'Kr' in els_out and 'Ar' in els_out else None
+            got = [tuple(int(x) for x in b) for b in np.asarray(res[0].bonds).reshape(-1, 2)]
+            if want is None or got != want:
+                V('at-most-once', 'bystander-bond', 'the bond between the two bystander atoms (Kr-Ar, stored after the matched atoms) is %r in the result, expected %r (deletion sets %r)' % (got, want, [sorted(d) for d in dels]))
     out['outcomes'][','.join(sorted(kinds))] = 1
     if 'overlap-refused' in kinds or 'overlap-allowed' in kinds:
         out['nontrivial'] = 1
